@@ -155,7 +155,7 @@ func C16(e *core.Env) int {
 	os.MkdirAll(root, 0o755)
 	os.WriteFile(filepath.Join(root, "go.mod"), []byte("module vcase\n\ngo 1.22\n"), 0o644)
 	layouts := []string{"default", "samepkg", "sharedfile", "twofiles", "variables", "taggedinput"}
-	pairs := []tagPair{{"", ""}, {"goverter,extra", "!goverter"}, {"extra,goverter", "!goverter"}, {"foo", "!foo"}, {"a,b", "!a"}, {"a,b", "!b"}, {"goverter", "EMPTY"}, {"gen", "EMPTY"}, {"NONE", "!goverter"}, {"NONE", "!foo"}, {"goverter", "linux && !goverter"}, {"b", "!b"}, {"dbg", "go1.18 && !dbg"}}
+	pairs := []tagPair{{"", ""}, {"goverter,extra", "!goverter"}, {"extra,goverter", "!goverter"}, {"foo", "!foo"}, {"a,b", "!a"}, {"a,b", "!b"}, {"goverter", "EMPTY"}, {"gen", "EMPTY"}, {"NONE", "!goverter"}, {"NONE", "!foo"}, {"goverter", "linux && !goverter"}, {"b", "!b"}, {"dbg", "go1.18 && !dbg"}, {"goverter_gen", "!goverter_gen"}, {"my.tag,x_1", "!my.tag"}}
 	priors := []string{"absent", "current", "older", "longer", "truncated", "broken"}
 	// the documented way to extend goverter is a main package that calls cli.Run with RunOpts: such a binary must
 	// behave like the stock one
